@@ -5,7 +5,9 @@ AllWords == -32768..32767
 FewWords == {-32768, -32767, -21846, -256, -255, -2, -1, 0, 1, 2, 127, 128, 255, 256, 257, 21845, 32767}
 NoDiffs == {0}
 \* raw - floor around 1.2 V / (5 V / 32768) = 7864.32 and 1.25 V = 8192 exactly
-DiffsAround == {-40000, -1, 0, 1, 7864, 7865, 8191, 8192, 8193, 40000}
+DiffsAround == {-40000, -1, 0, 1, 4095, 4096, 4097, 7864, 7865, 8191, 8192, 8193, 16383, 16384, 16385, 40000}
 Thr12 == <<5, 1, 6, 5, 32768>>     \* range 5 V, threshold 1.2 V
 Thr125 == <<5, 1, 5, 4, 32768>>    \* range 5 V, threshold 1.25 V (exactly representable: "at threshold")
+Thr0625 == <<5, 1, 5, 8, 32768>>   \* 0.625 V = 4096 counts exactly (below 1 V)
+Thr25 == <<5, 1, 5, 2, 32768>>     \* 2.5 V = 16384 counts exactly (above 2 V)
 =============================================================================
